@@ -104,6 +104,9 @@ type Opts struct {
 	MaxGas      int64 // consensus block max gas; 0 → -1 (unlimited)
 	Coinomics   *coinomicstypes.GenesisState
 	ChainID     string
+	// LocalConfig: node-local settings (app.toml / flags) that must not influence consensus, e.g. "evm.max-tx-gas-wanted",
+	// "minimum-gas-prices". Not part of genesis.
+	LocalConfig map[string]interface{}
 }
 
 // Node is one application instance plus the bookkeeping a consensus engine would keep.
@@ -121,12 +124,19 @@ type Node struct {
 	Opts      Opts
 }
 
-func newApp(db dbm.DB, chainID string) *app.Haqq {
+func newApp(db dbm.DB, chainID string, local map[string]interface{}) *app.Haqq {
+	opts := simutils.AppOptionsMap{"home": app.DefaultNodeHome}
+	bopts := []func(*baseapp.BaseApp){baseapp.SetChainID(chainID)}
+	for k, v := range local {
+		if k == "minimum-gas-prices" {
+			bopts = append(bopts, baseapp.SetMinGasPrices(v.(string)))
+			continue
+		}
+		opts[k] = v
+	}
 	return app.NewHaqq(
 		log.NewNopLogger(), db, nil, true, map[int64]bool{}, app.DefaultNodeHome, 0,
-		encoding.MakeConfig(app.ModuleBasics),
-		simutils.NewAppOptionsWithFlagHome(app.DefaultNodeHome),
-		baseapp.SetChainID(chainID),
+		encoding.MakeConfig(app.ModuleBasics), opts, bopts...,
 	)
 }
 
@@ -153,7 +163,7 @@ func NewNode(o Opts) *Node {
 		o.ChainID = ChainID
 	}
 	db := dbm.NewMemDB()
-	a := newApp(db, o.ChainID)
+	a := newApp(db, o.ChainID, o.LocalConfig)
 	cdc := a.AppCodec()
 	gs := app.NewDefaultGenesisState()
 
@@ -412,7 +422,7 @@ func (n *Node) Restart() *Node {
 }
 
 func (n *Node) reopen(db dbm.DB) *Node {
-	a := newApp(db, n.ChainID)
+	a := newApp(db, n.ChainID, n.Opts.LocalConfig)
 	m := &Node{App: a, DB: db, ChainID: n.ChainID, Opts: n.Opts, Header: n.Header,
 		ValsCur: cloneVals(n.ValsCur), ValsNext: cloneVals(n.ValsNext), ValsNN: cloneVals(n.ValsNN)}
 	m.LastVotes = make([]abci.VoteInfo, len(n.LastVotes))
@@ -534,7 +544,7 @@ func NewNodeFromExport(exp servertypes.ExportedApp, old *Node) (m *Node, perr st
 		}
 	}()
 	db := dbm.NewMemDB()
-	a := newApp(db, old.ChainID)
+	a := newApp(db, old.ChainID, old.Opts.LocalConfig)
 	var vals []abci.ValidatorUpdate
 	var tmVals []abci.Validator
 	for _, v := range exp.Validators {
